@@ -238,6 +238,9 @@ def execute(case, ctx, cls=None, extra_kwargs=None, after_create=None):
     name = fresh_name(ctx, kind)
     marker = os.path.join(ctx.scratch, name + '.marker')
     obs = {'name': name, 'ctor': 'ok', 'reached': None, 'delivered': False, 'reads': [], 'dead': None}
+    front = case.get('front')
+    if front:
+        inject.arm(name + '.front', front['mode'], front.get('n', -1))
     if mode in ('terminate', 'kill', 'census', 'pause'):
         inject.arm(name, mode, inj.get('n', -1), inj.get('sig', 'SIGKILL'), inj.get('granularity', 'line'))
     w = None
@@ -292,6 +295,27 @@ def execute(case, ctx, cls=None, extra_kwargs=None, after_create=None):
             if mode == 'terminate' and obs['reached']:
                 d = inject.delivered(name, 1.0)
                 obs['delivered'] = bool(d)
+        elif front and front['mode'] == 'pause':
+            # hold the parent-side forwarding thread at its n-th line, kill the remote child meanwhile, then let it go on
+            obs['front_reached'] = inject.wait_reached(name + '.front', 3.0)
+            if obs['front_reached']:
+                try:
+                    os.kill(w.pid, signal.SIGKILL)
+                except ProcessLookupError:
+                    pass
+                time.sleep(0.15)
+                inject.release(name + '.front')
+            else:
+                try:
+                    os.kill(w.pid, signal.SIGKILL)
+                except ProcessLookupError:
+                    pass
+            try:
+                obs['wait_ret'] = bounded(w.wait, GUARD, 10)
+            except Blocked:
+                obs['wait_ret'] = 'blocked'
+            except BaseException as e:
+                obs['wait_ret'] = 'raised:' + type(e).__name__
         elif mode == 'kill_external':
             time.sleep(case.get('settle', 0.4))
             obs['was_alive_at_kill'] = pid_alive(w.pid) if w.pid != os.getpid() else None
@@ -347,7 +371,7 @@ def execute(case, ctx, cls=None, extra_kwargs=None, after_create=None):
             if pipe is not None:
                 raw = []
                 ep = pipe.parent_end
-                t_end = time.monotonic() + 8
+                t_end = time.monotonic() + 30
                 while True:
                     left = t_end - time.monotonic()
                     if left <= 0 or not mpc.wait([ep], left):
@@ -374,7 +398,7 @@ def execute(case, ctx, cls=None, extra_kwargs=None, after_create=None):
                             break
                     return out
                 try:
-                    obs['stream'] = bounded(drain, 10)
+                    obs['stream'] = bounded(drain, 30)
                     obs['stream_end'] = 'stopped'
                 except Blocked:
                     obs['stream_end'] = 'blocked'
@@ -384,7 +408,7 @@ def execute(case, ctx, cls=None, extra_kwargs=None, after_create=None):
                     obs['stream'] = None
                 if obs['stream_end'] == 'stopped':
                     try:
-                        bounded(w.next_result, 10)
+                        bounded(w.next_result, 30)
                         obs['after_end'] = 'value'
                     except queue.Empty:
                         obs['after_end'] = 'empty'
@@ -416,6 +440,9 @@ def execute(case, ctx, cls=None, extra_kwargs=None, after_create=None):
                     pass
         if mode != 'none':
             inject.cleanup(name)
+        if front:
+            obs['front_trace'] = inject.trace(name + '.front')
+            inject.cleanup(name + '.front')
         try:
             os.unlink(marker)
         except OSError:
